@@ -213,10 +213,30 @@ def run_predict(spec, res):
                  spread=float(rng.choice([1.0, 3.0])), layout="C", theta="dense")
         st, X = c05.make_model(d)
         T = d["T"]
+        long_weak = (i % 30 == 7)
+        if long_weak:
+            # thousands of points, two nearly identical clusters, a large switching cost
+            T = int(rng.choice([4500, 9000]))
+            d = dict(d, nw=1, W=1, K=2, T=T)
+            st, _ = c05.make_model(d)
+            X = rng.normal(size=(T, 1))
+            t0 = 0
+            reg = 0
+            while t0 < T:
+                L = int(rng.integers(900, 2500))
+                X[t0:t0 + L] += 0.3 * reg
+                t0 += L
+                reg = 1 - reg
+            for k_, c_ in enumerate(st.clusters):
+                c_.train_inverse = np.eye(1)
+                c_.stacked_data_mean = np.array([0.3 * k_])
+            res.count("long_weak_evidence_sweeps")
         betas = []
         for j in range(3):
             u = rng.random()
-            if u < 0.4:
+            if long_weak:
+                betas.append(float(rng.choice([20.0, 50.0, 120.0])))
+            elif u < 0.4:
                 betas.append(float(rng.choice([0.0, 0.5, 2.0, 10.0, 100.0])))
             elif u < 0.7:
                 v = rng.uniform(0, 10, size=T)
@@ -388,6 +408,8 @@ def finalize(merged, tier):
         out["inconclusive"].append("only %d tables with more than 4096 points" % c.get("long_tables", 0))
     if c.get("large_K_cases", 0) < 20:
         out["inconclusive"].append("only %d cases with more than 256 clusters" % c.get("large_K_cases", 0))
+    if c.get("long_weak_evidence_sweeps", 0) < 3:
+        out["inconclusive"].append("only %d long weak-evidence sweeps through the relabelling function" % c.get("long_weak_evidence_sweeps", 0))
     if c.get("predict_calls_checked", 0) < 300:
         out["inconclusive"].append("only %d relabelling calls of switching-cost sweeps were checked" % c.get("predict_calls_checked", 0))
     if c.get("brute_forced", 0) < 500:
